@@ -58,6 +58,7 @@ PARTIAL = {
     "Pyval.tuple_kept_partial": "holds only for tuples of length != 1 (the colorizer never writes the trailing comma; the fix is not applied because the test-suite pins '(f)')",
     "Pyval.display_eq_render": "general lemma about result items: needs NUL-free item text; for str/bytes constants this is now a theorem (display_const_full); names, float text and astor text are NUL-free because Python source is",
     "Pyval.line_budget_counterexample": "states what is NOT claimed: after a parenthesised operator charpos/lineno are under-counted, so a line may exceed linelen and a complete result may exceed maxlines lines; no theorem assumes a line budget",
+    "Pyval.cut_shows_written": "covers the three ways colorize ends incomplete: _Maxlines, _Linebreak, and (0a8115c) RecursionError - the model's own walk never raises the last one, Prog.fail .recursion stands for the interpreter running out of stack",
     "Pyval.wrap_marked": "full for what the property says (cut => marked, complete => nothing lost); the stronger 'cut output is a prefix of the full text' is false (wrap_prefix_counterexample: the closing parenthesis of an open operator group is still written)",
     "Pyval.paren_table_old_exact": "HISTORICAL: describes the code before b6b97a7 (decisionOld)",
     "Pyval.paren_table_old_counterexample": "HISTORICAL: a-(b-c), a/(b*c), a-(b+c) before b6b97a7",
@@ -232,23 +233,20 @@ def atoks(node: ast.AST) -> List[str]:
 
 def delegated(node: ast.AST, stats: Optional[Dict[str, int]]) -> List[str]:
     import astor
-    if isinstance(node, (ast.Compare, ast.IfExp)) and in_fragment(node):
-        text = None
-        try:
-            text = astor.to_source(node).strip()
-        except Exception:
-            pass
-        if text is not None and "\n" not in text and len(text) < 90:   # astor reflows long lines
-            if stats is not None:
-                stats["astor-modelled"] = stats.get("astor-modelled", 0) + 1
-            return ["A"] + atoks(node)
     try:
-        text = astor.to_source(node).strip()
+        one = astor.to_source(node, pretty_source="".join).strip()     # state.linebreakok false (a5155ca)
+        wrapped = astor.to_source(node).strip()                         # line breaks allowed: astor may wrap
     except Exception:
         return ["un"]
+    if isinstance(node, (ast.Compare, ast.IfExp)) and in_fragment(node) and one == wrapped and "\n" not in one:
+        if stats is not None:
+            stats["astor-modelled"] = stats.get("astor-modelled", 0) + 1
+        return ["A"] + atoks(node)
     if stats is not None:
         stats["opaque:" + type(node).__name__] = stats.get("opaque:" + type(node).__name__, 0) + 1
-    return ["o", enc(text)]
+        if one != wrapped:
+            stats["opaque:astor-wraps-it"] = stats.get("opaque:astor-wraps-it", 0) + 1
+    return ["o", enc(one), enc(wrapped)]
 
 
 def etoks(node: ast.AST, stats: Optional[Dict[str, int]] = None) -> List[str]:
@@ -1816,6 +1814,15 @@ def corpus_stream(ctx: Ctx) -> None:
             for ml in (0, 2, 7):
                 b.add(s, (ll, ml, True))
     b.flush()
+    # a value nested too deeply for the recursive walk (0a8115c): not modelled (the Lean walk has no stack limit);
+    # oracle only: it must come back complete and right, or visibly truncated - never raise
+    for cfg in (inl, cv):
+        deep = " + ".join(["a"] * 400)
+        tree = ast.parse(deep, mode="eval").body
+        ans, r = run_impl(tree, *cfg)
+        ctx.case("D|%r" % (cfg,), True, None)
+        ctx.count("corpus:deep-chain:" + ("raised" if r is None else "complete" if r.is_complete else "cut-and-marked"))
+        oracle(ctx, deep, ast.parse(deep, mode="eval").body, ans, r, cfg)
     # string annotations (findings + seeded/C14-r2-3)
     unstring_stream(ctx, only=['"A | B" & C', 'C & "A | B"', '-"A + B"', 'not "A or B"', '"A or B" and C', '"Foo" | None',
                                'Optional["A | B"]', 't.Literal["r", "w"]', 'te.Literal["a | b"]', 'typing.Literal["a b", "c"]',
